@@ -50,6 +50,66 @@ CLAIMS = {
         'the input. That results are sub-slices (pointer identity) and that 0 heap allocations happen is OBSERVED by the harness (counting global allocator, inputs to 64 kB): a '
         'value-level Gallina model has no heap, so that half is test-level (partial).',
    note=TB + 'Allocation behaviour is runtime behaviour the model cannot exhibit.'),
+ 'C06': dict(cat='proof', tech='Coq refinement proof of one branch of resolve to an RFC 5.2.2 spec + independent RFC oracle on every implementation output + model correspondence',
+   text='Spec coq/Rfc.v (rfc_target, rds, merge). Theorem C06_empty_path_branch_partial: for ALL well-formed base and reference with no scheme, no authority and an empty path the model of '
+        'resolve returns compose (rfc_target base ref) (component selection and query inheritance), without panic; C06_rds_normal / C06_rds_plain on the 5.2.4 walk. The four branches that '
+        'remove dot segments are executed on the implementation and the extracted model (all three entry points, both families) and every output is judged by an independent '
+        'transcription of RFC 3986 5.2 (tools/spec.py): partial. Known finding K_R2.',
+   note=TB + 'Oracle tools/spec.py is an independent reading of the RFC; interpretation I1/I8 (DESIGN section 8).'),
+ 'C07': dict(cat='proof', tech='Coq proof: the derive-style comparison model factors through a canonical form built from total-order combinators; decode totality by reflection; correspondence check',
+   text='Theorems C07_eq_is_canon_equality, C07_reflexive/_symmetric/_transitive (== on references is equality of canonical forms (scheme literal, decoded user info/host, literal '
+        'port, absoluteness, decoded normalised segments, decoded query/fragment), never panics when the components decode), C07_authority, C07_path for the stand-alone types, '
+        'C07_decode_total (decoding is total on every valid component of both families, by inclusion certificates).',
+   note=TB + 'The link "valid reference -> canon is defined" composes C02 (decomposition) with C07_decode_total; it is stated per component, not yet as one theorem.'),
+ 'C08': dict(cat='proof', tech='Coq proof over the same canonical form: hash stream is a function of it, cmp is a lexicographic total order on it; hash streams compared token by token with the implementation',
+   text='Theorems C08_equal_hash_equal (the exact sequence of Hasher::write_* calls is determined by the canonical form), C08_cmp_eq_agree, C08_total_antisymmetric, C08_transitive, C08_order. '
+        'Views (owned/borrowed, Uri vs UriRef vs Iri vs IriRef) are one model value; that the front ends implement it is checked by recording Hasher streams and by HashSet/BTreeSet lookups '
+        'through every Borrow impl between library types.',
+   note=TB + 'derive(Ord/Hash) semantics of std (field order, Option discriminant as isize, [u8] length prefix) are modelled as observed.'),
+ 'C09': dict(cat='proof', tech='Coq proof (stack walk of the model = specification walk; normal form; idempotence) + correspondence with an RFC 5.2.4 oracle',
+   text='Theorems C09_normalized_segments (the range stack of NormalizedSegmentsImpl::new computes `norm` on the iterated segments), C09_normal_form, C09_idempotent, C09_render_segs. normalized() '
+        'and in-place normalize() (stand-alone and embedded, incl. > 16 segments / > 512 bytes, twice through one handle) are modelled (PathMut.v) and judged by the rendering oracle: partial. '
+        'Known findings K_G11, K_shield_left.',
+   note=TB + 'Interpretations I4, I8.'),
+ 'C10': dict(cat='proof', tech='Coq proof of the push law for all byte strings + L0 handle model correspondence + list-semantics oracle per edit',
+   text='Theorem C10_push_law: push appends exactly the pushed segment (dot-free reading) for EVERY byte string and context, all five branches of the code. pop/clear/symbolic_push/'
+        'symbolic_append/normalize through ONE handle are modelled at index level (PathMut.v, the `end` arithmetic of the code) and compared after every edit with the implementation, with '
+        'list-semantics laws, frame (scheme/authority/query/fragment untouched, unambiguous), and the same edits through fresh handles: partial. Known findings K_pop_dslash, K_dot_only, K_G11.',
+   note=TB + 'Interpretations I2, I9.'),
+ 'C13': dict(cat='proof', tech='Coq proof by reflection: inclusion certificates between the GENERATED validators (regenerated every run) and between the RFC grammars; conversions and cross-family agreement by differential testing',
+   text='11 theorems C13_<a>_in_<b> on the DFAs translated from the current tree (every URI type is accepted by its IRI counterpart; Uri in UriRef; Iri in IriRef), plus C13_uri_is_iri, '
+        'C13_uriref_is_iriref, C13_uri_iff_scheme, C13_iri_iff_scheme on the grammars (a reference is a full URI/IRI exactly when it has the scheme shape). Conversions (every as_/into_/try_into_/'
+        'TryFrom/From) and "identical results in both families on ASCII input" (accessors, ==/cmp/hash stream, resolution, edits, normalisation, relative_to, suffix) are tested.',
+   note='Trusted: Coq kernel + vm_compute; translator (validated by C01); harness. Conversions are tested, not proved.'),
+ 'C14': dict(cat='proof', tech='accept side by the C01 reflection theorems (re-checked for the tree); thin Coq model of "validate then wrap"; all textual routes by differential testing',
+   text='Accept side: the 20 C01 theorems. Thin model theorems C14_accepts_iff_validate / C14_text_preserved / C14_payload_returned pin the intended behaviour of a route. The ~25 real routes '
+        'per type (Display, Debug, as_str/as_bytes, into_*, to_owned, Clone, AsRef, FromStr, TryFrom, from_vec, serde str/bytes borrowed/owned, == str/String/[u8]) are exercised on '
+        'valid and malformed strings: test-level for the plumbing (partial).',
+   note='Trusted: as C01; serde/serde_json; the harness. Interpretation I7.'),
+ 'C15': dict(cat='proof', tech='Coq refutation of the full statement by witnesses on the faithful model; round trip checked on the claimed class by model correspondence and the implementation\'s own ==',
+   text='Theorem C15_full_statement_refuted (the model, which agrees with the implementation on every generated pair, fails the round trip on a witness): the property as stated does NOT hold; '
+        'eight classes are recorded as known findings. On the complement (a dot-free with absolute path, authority on both or neither side, no inner empty segment, no query inheritance, a not '
+        'an ancestor of b\'s directory) the round trip held on every generated pair; no unbounded theorem yet: partial.',
+   note=TB),
+ 'C16': dict(cat='proof', tech='Coq proof (soundness of the suffix loop in both directions; base is a prefix) + correspondence with a prefix oracle',
+   text='Theorems C16_suffix_only_for_prefixes, C16_none_only_for_non_prefixes (the suffix loop reports a suffix only for percent-decoded segment prefixes and "none" only for non-prefixes), '
+        'C16_base_is_prefix. Scheme/authority/absoluteness conditions, the remaining segments, query/fragment, and base() = text up to the last "/" of the path are compared with an oracle.',
+   note=TB),
+ 'C17': dict(cat='proof', tech='accept language by the C01 theorems for the four types + thin Coq model; expansion observed by compiling one program per literal',
+   text='What Coq decides is the accept language (C01 for uri, uri_reference, iri, iri_reference; thin model theorems C17_accepts_iff_runtime, C17_same_text). The expansion round trip '
+        '(syn::LitStr -> quote! -> rustc) is observed: a generated crate with one macro invocation per line is built with JSON diagnostics (failing lines = rejected literals) and a second '
+        'program compares every accepted value with the run-time parse: partial, no executable model of the compiler.',
+   note='Trusted: as C01; cargo/rustc diagnostics; the generated crates.'),
+ 'C18': dict(cat='proof', tech='Coq proof of coherence between stored-offset and re-scanning accessors for every accepted text + correspondence with a shape oracle',
+   text='Theorem C18_coherent: whenever the delimiter parser accepts, the text is "data:" media [";base64"] "," data over the media-type alphabet, and the owned accessors (stored offsets) '
+        'and the borrowed re-scanning accessors (which therefore terminate) return the same media type, flag and data. Constructors (borrowed/owned/from_string/FromStr), URI validity and '
+        'base64 decoding are compared with an independent oracle.',
+   note=TB + 'base64 decoding is the external crate (oracle: Python base64).'),
+ 'C19': dict(cat='proof', tech='Coq proof of totality of the octet view on every valid component (inclusion certificates + induction); character view tested',
+   text='Theorem C19_octets_total_partial (percent-decoding to octets never fails on a valid user info/host/segment/query/fragment of either family), C19_step_literal/_escape. The '
+        'character view (chars/len/decode/==) belongs to the external crate pct-str; it is exercised on every %XX pattern of the property text and through the accessors of generated '
+        'references; its panics/lenient decoding on ill-formed octets are a recorded finding (K_pct_view): partial.',
+   note=TB),
 }
 
 def check_entry(pid, c):
